@@ -3,6 +3,7 @@ package checks
 import (
 	"fmt"
 	"math"
+	"reflect"
 
 	"github.com/taurusgroup/multi-party-sig/pkg/ecdsa"
 	"github.com/taurusgroup/multi-party-sig/pkg/math/curve"
@@ -79,16 +80,26 @@ func c20Pairs(t *vk.T, rep int) {
 	for ln, l := range badLists {
 		for tn, th := range badThr {
 			l, th := l, th
-			try("frost.Keygen", "participants="+ln+"+threshold="+tn, func() (protocol.Handler, error) { return protocol.NewMultiHandler(frost.Keygen(group, ids[0], l, th), nil) })
-			try("frost.KeygenTaproot", "participants="+ln+"+threshold="+tn, func() (protocol.Handler, error) { return protocol.NewMultiHandler(frost.KeygenTaproot(ids[0], l, th), nil) })
-			try("cmp.Keygen", "participants="+ln+"+threshold="+tn, func() (protocol.Handler, error) { return protocol.NewMultiHandler(cmp.Keygen(group, ids[0], l, th, nil), nil) })
+			try("frost.Keygen", "participants="+ln+"+threshold="+tn, func() (protocol.Handler, error) {
+				return protocol.NewMultiHandler(frost.Keygen(group, ids[0], l, th), nil)
+			})
+			try("frost.KeygenTaproot", "participants="+ln+"+threshold="+tn, func() (protocol.Handler, error) {
+				return protocol.NewMultiHandler(frost.KeygenTaproot(ids[0], l, th), nil)
+			})
+			try("cmp.Keygen", "participants="+ln+"+threshold="+tn, func() (protocol.Handler, error) {
+				return protocol.NewMultiHandler(cmp.Keygen(group, ids[0], l, th, nil), nil)
+			})
 		}
 	}
 	for sn, S := range badSigners {
 		for mn, m := range badMsgs {
 			S, m := S, m
-			try("frost.Sign", "signers="+sn+"+message="+mn, func() (protocol.Handler, error) { return protocol.NewMultiHandler(frost.Sign(fm.Cfgs[ids[0]], S, m), nil) })
-			try("cmp.Sign", "signers="+sn+"+message="+mn, func() (protocol.Handler, error) { return protocol.NewMultiHandler(cmp.Sign(cm.Cfgs[ids[0]], S, m, nil), nil) })
+			try("frost.Sign", "signers="+sn+"+message="+mn, func() (protocol.Handler, error) {
+				return protocol.NewMultiHandler(frost.Sign(fm.Cfgs[ids[0]], S, m), nil)
+			})
+			try("cmp.Sign", "signers="+sn+"+message="+mn, func() (protocol.Handler, error) {
+				return protocol.NewMultiHandler(cmp.Sign(cm.Cfgs[ids[0]], S, m, nil), nil)
+			})
 			try("presign.StartPresign(full)", "signers="+sn+"+message="+mn, func() (protocol.Handler, error) {
 				if len(m) == 0 {
 					return nil, fmt.Errorf("an empty message selects the offline variant (not an invalid pair)")
@@ -99,7 +110,9 @@ func c20Pairs(t *vk.T, rep int) {
 		S := S
 		try("frost.Sign", "signers="+sn+"+config=nil", func() (protocol.Handler, error) { return protocol.NewMultiHandler(frost.Sign(nil, S, msg), nil) })
 		try("cmp.Sign", "signers="+sn+"+config=nil", func() (protocol.Handler, error) { return protocol.NewMultiHandler(cmp.Sign(nil, S, msg, nil), nil) })
-		try("cmp.Presign", "signers="+sn+"+config=empty", func() (protocol.Handler, error) { return protocol.NewMultiHandler(cmp.Presign(cmp.EmptyConfig(group), S, nil), nil) })
+		try("cmp.Presign", "signers="+sn+"+config=empty", func() (protocol.Handler, error) {
+			return protocol.NewMultiHandler(cmp.Presign(cmp.EmptyConfig(group), S, nil), nil)
+		})
 	}
 	if rep == 0 {
 		t.Sample(map[string]any{"kind": "pairs of invalid parameters", "lists": len(badLists), "thresholds": len(badThr), "signer_sets": len(badSigners)})
@@ -614,6 +627,36 @@ func c20Family(t *vk.T, fam string, rep int, env vk.Env) {
 			c = fx.CloneCMP(cm.Cfgs[ids[0]])
 			delete(c.Public, ids[1])
 			m["peer-table-entry-missing"] = c
+			// systematically: every nillable field of the configuration and of a peer's / the own public entry absent
+			ct := reflect.TypeOf(*cm.Cfgs[ids[0]])
+			for i := 0; i < ct.NumField(); i++ {
+				f := ct.Field(i)
+				switch f.Type.Kind() {
+				case reflect.Ptr, reflect.Interface, reflect.Slice, reflect.Map:
+				default:
+					continue
+				}
+				name := "nil-field-" + f.Name
+				c = fx.CloneCMP(cm.Cfgs[ids[0]])
+				reflect.ValueOf(c).Elem().Field(i).Set(reflect.Zero(f.Type))
+				m[name] = c
+			}
+			if pe := cm.Cfgs[ids[0]].Public[ids[1]]; pe != nil {
+				pt := reflect.TypeOf(*pe)
+				for i := 0; i < pt.NumField(); i++ {
+					f := pt.Field(i)
+					switch f.Type.Kind() {
+					case reflect.Ptr, reflect.Interface, reflect.Slice, reflect.Map:
+					default:
+						continue
+					}
+					for _, who := range []int{0, 1} {
+						c = fx.CloneCMP(cm.Cfgs[ids[0]])
+						reflect.ValueOf(c.Public[ids[who]]).Elem().Field(i).Set(reflect.Zero(f.Type))
+						m[fmt.Sprintf("%s-entry-nil-field-%s", []string{"own", "peer"}[who], f.Name)] = c
+					}
+				}
+			}
 			return m
 		}
 		signerSets := []struct {
@@ -781,7 +824,6 @@ func c20Family(t *vk.T, fam string, rep int, env vk.Env) {
 	}
 }
 
-
 func c20Judge(t *vk.T, sc *c20Scenario, r *vk.Rand, env vk.Env) {
 	key := sc.fn + "|" + sc.param + "=" + sc.value
 	t.Obs("evaluations", 1)
@@ -853,6 +895,21 @@ func c20Judge(t *vk.T, sc *c20Scenario, r *vk.Rand, env vk.Env) {
 	correct := allDone && len(refused) == 0
 	if correct && !sc.keygenLike && sc.expectKey != nil {
 		for _, o := range outs {
+			if pre, isPre := o.Value.(*ecdsa.PreSignature); isPre {
+				// an offline presigning session ends with presignatures: judged by their own validity rule and by
+				// agreement on the nonce point (the signature they lead to is C01's business)
+				okPre := pre != nil && pre.Validate() == nil
+				if okPre {
+					if first, ok0 := outs[0].Value.(*ecdsa.PreSignature); ok0 && first != nil && first.R != nil && pre.R != nil {
+						okPre = first.R.Equal(pre.R)
+					}
+				}
+				if !okPre {
+					correct = false
+					t.Violation(key+"|wrong-result", "a session started with %s=%s completed with an invalid or disagreeing presignature at %q", sc.param, sc.value, o.ID)
+				}
+				continue
+			}
 			if ok, _, _ := fx.VerifySig(o.Value, *sc.expectKey, sc.msg); !ok {
 				correct = false
 				t.Violation(key+"|wrong-result", "a session started with %s=%s completed with an invalid signature at %q", sc.param, sc.value, o.ID)
